@@ -2,8 +2,8 @@
 (* C13 - contract on the analytic BER / threshold / receiver-noise functions, evaluated on recorded values
    (Sci pairs, see Sci.tla).  Events:
      qpoint [fn, k, val, slack]        a lattice point whose closed form is Q(k):  QTab[k] <= val <= QTab[k] (1 + slack*1e-8)
-                                       (values of the soft-decision formula, a difference 1 - integral, are compared down to 1e-9 only:
-                                        below that the double-precision formula has no relative accuracy)
+                                       (values of the soft-decision formula 1 - quad(...) carry scipy's absolute quadrature tolerance 1.5e-8:
+                                        they are compared with an absolute slack of 3e-8, and on the lattice only for k <= 4)
      eq     [name, a, b, tol]          two API programs that must agree (tol in mantissa units = 1e-8 relative); thresholds found on a
                                        1000-point grid are compared up to 4 grid steps (argmin over a flat minimum)
      leq    [name, a, b]               a <= b
@@ -16,7 +16,7 @@ Names == {"ook-never-below-true-minimum", "ook-within-grid-error-of-minimum", "o
           "ook-threshold-midpoint-for-equal-sigmas", "optimum-threshold-solves-density-equation", "BER-non-increasing-in-mu", "BER-decreases-with-received-power",
           "utils.theory_BER=error-integral-on-model-levels-and-variances", "noise_variances=thermal+shot-monomials", "average-power-is-P_avg",
           "p_ase=monomial", "mu_ASE=monomial", "levels=monomial", "estimator=formula-on-eye-statistics", "ppm-soft-M2=Q"}
-SciNonInc(s) == \A i \in 1..(Len(s) - 1) : SciLeq(s[i + 1], s[i], 2)
+SciNonInc(s, slack) == \A i \in 1..(Len(s) - 1) : SciLeq(s[i + 1], s[i], slack)
 Clauses(e) ==
   CASE e.kind = "qpoint" -> (IF ~SciLeq(QTab[e.k + 1], e.val, 20) THEN {e.fn \o "-below-Q(k)"} ELSE {}) \cup
                             (IF ~SciLeq(e.val, <<QTab[e.k + 1][1] + (QTab[e.k + 1][1] \div 100000) * (e.slack \div 1000) + 20, QTab[e.k + 1][2]>>, 0)
@@ -24,7 +24,7 @@ Clauses(e) ==
     [] e.kind = "eq" -> IF e.name \notin Names THEN {"unknown-name"} ELSE IF ~SciClose(e.a, e.b, e.tol) THEN {e.name} ELSE {}
     [] e.kind = "leq" -> IF e.name \notin Names THEN {"unknown-name"} ELSE IF ~SciLeq(e.a, e.b, 5) THEN {e.name} ELSE {}
     [] e.kind = "inside" -> IF ~(SciLeq(e.lo, e.x, 5) /\ SciLeq(e.x, e.hi, 5)) THEN {e.name} ELSE {}
-    [] e.kind = "mono" -> IF ~SciNonInc(e.seq) THEN {e.name} ELSE {}
+    [] e.kind = "mono" -> IF ~SciNonInc(e.seq, e.slack) THEN {e.name} ELSE {}
 Bad == UNION {{<<i, c>> : c \in Clauses(Trace[i])} : i \in 1..Len(Trace)}
 ASSUME JsonSerialize(IOEnv.OUT_FILE, [n |-> Len(Trace), bad |-> Bad])
 =============================================================================
